@@ -162,8 +162,16 @@ func (fe *FnEnc) applyWriteSet(st *State, ws *WriteSet, who string) {
 		fe.havocAll(st)
 		return
 	}
+	if s, ok := ws.comps["alloc"]; ok {
+		fe.havocComp(st, "alloc", s)
+	}
 	for _, k := range sortedKeys(ws.comps) {
-		fe.havocComp(st, k, ws.comps[k])
+		if k != "alloc" {
+			if t, ok := ws.types[k]; ok {
+				fe.compT[k] = t
+			}
+			fe.havocComp(st, k, ws.comps[k])
+		}
 	}
 }
 
@@ -357,14 +365,13 @@ func (fe *FnEnc) applyContract(st *State, instr ssa.Instruction, fc *FuncContrac
 	fe.callOrd[fc.Key]++
 	for i := range fc.Requires {
 		cl := &fc.Requires[i]
-		g := fe.trBool(cl.E, envPre)
 		props := cl.Props
 		if props == nil {
 			props = fc.Props
 		}
 		props = unionProps(props, fe.propsFor(nil))
-		fe.addObl(st, "pre", fmt.Sprintf("%s:%s@%d", fc.Key, cl.Label, fe.callOrd[fc.Key]), props, g, pos)
-		fe.assume(st, g)
+		o := fe.addOblExpr(st, "pre", fmt.Sprintf("%s:%s@%d", fc.Key, cl.Label, fe.callOrd[fc.Key]), props, cl.E, envPre, pos)
+		fe.assume(st, o.Goal)
 	}
 	ws := fe.c.writeSetOf(callee)
 	fe.applyWriteSet(st, ws, fc.Key)
@@ -479,14 +486,13 @@ func (fe *FnEnc) applyIfaceContract(st *State, instr ssa.Instruction, cf *Contra
 	fe.callOrd[fc.Key]++
 	for i := range fc.Requires {
 		cl := &fc.Requires[i]
-		g := fe.trBool(cl.E, envPre)
 		props := cl.Props
 		if props == nil {
 			props = fc.Props
 		}
 		props = unionProps(props, fe.propsFor(nil))
-		fe.addObl(st, "pre", fmt.Sprintf("%s:%s@%d", fc.Key, cl.Label, fe.callOrd[fc.Key]), props, g, pos)
-		fe.assume(st, g)
+		o := fe.addOblExpr(st, "pre", fmt.Sprintf("%s:%s@%d", fc.Key, cl.Label, fe.callOrd[fc.Key]), props, cl.E, envPre, pos)
+		fe.assume(st, o.Goal)
 	}
 	fe.applyWriteSet(st, ws, fc.Key)
 	rets := fe.freshResults(st, sig, fc.Key)
@@ -561,9 +567,8 @@ func (fe *FnEnc) callCallback(st *State, instr ssa.Instruction, common *ssa.Call
 		fe.callOrd[fc.Key]++
 		for i := range fc.Requires {
 			cl := &fc.Requires[i]
-			g := fe.trBool(cl.E, envPre)
-			fe.addObl(st, "pre", fmt.Sprintf("%s:%s@%d", fc.Key, cl.Label, fe.callOrd[fc.Key]), unionProps(fc.Props, fe.propsFor(nil)), g, instr.Pos())
-			fe.assume(st, g)
+			o := fe.addOblExpr(st, "pre", fmt.Sprintf("%s:%s@%d", fc.Key, cl.Label, fe.callOrd[fc.Key]), unionProps(fc.Props, fe.propsFor(nil)), cl.E, envPre, instr.Pos())
+			fe.assume(st, o.Goal)
 		}
 		fe.applyWriteSet(st, ws, fc.Key)
 		rets := fe.freshResults(st, sig, fname)
@@ -663,6 +668,7 @@ func (fe *FnEnc) builtinAppend(st *State, common *ssa.CallCommon, args []RV, res
 	el := st0.Elem()
 	es := fe.sorts.sortOf(el)
 	cn, cs := compElems(es), arrSort(sInt, arrSort(sInt, es))
+	fe.compT[cn] = el
 	rowS := arrSort(sInt, es)
 	var n Term
 	var srcRow, srcOff Term
@@ -703,6 +709,9 @@ func (fe *FnEnc) builtinAppend(st *State, common *ssa.CallCommon, args []RV, res
 		fr := fe.fresh("app.row", rowS)
 		fe.emit(fmt.Sprintf("(assert (forall ((p Int)) (! (=> (and (<= 0 p) (< p %s)) (= (select %s p) (select %s (+ p %s)))) :pattern ((select %s p)))))",
 			ln.S, fr.S, oldRow.S, slOff(s).S, fr.S))
+		// the same fact, triggered from the old row (gives witnesses for existential goals about the result)
+		fe.emit(fmt.Sprintf("(assert (forall ((p Int)) (! (=> (and (<= %s p) (< p (+ %s %s))) (= (select %s (- p %s)) (select %s p))) :pattern ((select %s p)))))",
+			slOff(s).S, slOff(s).S, ln.S, fr.S, slOff(s).S, oldRow.S, oldRow.S))
 		for j := int64(0); j < k; j++ {
 			fe.emit(fmt.Sprintf("(assert (= (select %s (+ %s %d)) %s))", fr.S, ln.S, j, tSel(srcRow, tArith("+", srcOff, tInt(j))).S))
 		}
@@ -712,9 +721,13 @@ func (fe *FnEnc) builtinAppend(st *State, common *ssa.CallCommon, args []RV, res
 		// copied prefix
 		fe.emit(fmt.Sprintf("(assert (forall ((p Int)) (! (=> (and (<= %s p) (< p (+ %s %s))) (= (select %s p) (select %s (+ (- p %s) %s)))) :pattern ((select %s p)))))",
 			ro.S, ro.S, ln.S, fr.S, oldRow.S, ro.S, slOff(s).S, fr.S))
+		fe.emit(fmt.Sprintf("(assert (forall ((p Int)) (! (=> (and (<= %s p) (< p (+ %s %s))) (= (select %s (+ (- p %s) %s)) (select %s p))) :pattern ((select %s p)))))",
+			slOff(s).S, slOff(s).S, ln.S, fr.S, slOff(s).S, ro.S, oldRow.S, oldRow.S))
 		if !isStr {
 			fe.emit(fmt.Sprintf("(assert (forall ((p Int)) (! (=> (and (<= (+ %s %s) p) (< p (+ %s %s %s))) (= (select %s p) (select %s (+ (- p (+ %s %s)) %s)))) :pattern ((select %s p)))))",
 				ro.S, ln.S, ro.S, ln.S, nn.S, fr.S, srcRow.S, ro.S, ln.S, srcOff.S, fr.S))
+			fe.emit(fmt.Sprintf("(assert (forall ((p Int)) (! (=> (and (<= %s p) (< p (+ %s %s))) (= (select %s (+ (- p %s) %s %s)) (select %s p))) :pattern ((select %s p)))))",
+				srcOff.S, srcOff.S, nn.S, fr.S, srcOff.S, ro.S, ln.S, srcRow.S, srcRow.S))
 		}
 		// in place: everything outside the appended window is unchanged
 		fe.emit(fmt.Sprintf("(assert (=> %s (forall ((p Int)) (! (=> (or (< p (+ %s %s)) (>= p (+ %s %s %s))) (= (select %s p) (select %s p))) :pattern ((select %s p))))))",
@@ -722,6 +735,7 @@ func (fe *FnEnc) builtinAppend(st *State, common *ssa.CallCommon, args []RV, res
 		newRow = fr
 	}
 	fe.setComp(st, cn, cs, tStore(h, ra, newRow))
+	fe.emit("(assert (= (select " + fe.getComp(st, cn, cs).S + " " + ra.S + ") " + newRow.S + "))")
 	ncap := fe.fresh("app.cap", sInt)
 	fe.emit(fmt.Sprintf("(assert (and (>= %s (+ %s %s)) (=> %s (= %s %s))))", ncap.S, ln.S, nn.S, fits.S, ncap.S, slCap(s).S))
 	// appending nothing to a nil slice yields nil
